@@ -511,6 +511,69 @@ theorem entry_object_undisciplined_refuted :
   refine ⟨⟨fun s i => ((s "_m").getD 0, if i = 0 then [] else [("_m", (i : Int))])⟩, fun _ => none, [5], 0, ?_⟩
   decide
 
+/-- **The version-conversion pass objects** (`ConvertVersionPass` and the `_ConvertVersionPassRequiresInline`
+it keeps): for the rows the translator generates for them from the current source, every behaviour
+respecting the row gives, after ANY history of earlier calls on the same pass object, the result of a
+call on a freshly constructed pass. -/
+theorem convert_version_pass_history_independent {I O : Type} (e : EntryRow)
+    (he : e ∈ OV.Gen.C14Globals.entryRows)
+    (hn : e.name = "ConvertVersionPass" ∨ e.name = "_ConvertVersionPassRequiresInline")
+    (b : ObjBeh I O) (hr : ObjRespects e b) (s₀ : OState) (H : List I) (i : I) :
+    (b.call (objRun b s₀ H) i).1 = (b.call s₀ i).1 := by
+  have hne : e.name ≠ "Converter" := by
+    rcases hn with h | h <;> (rw [h]; decide)
+  exact entry_object_history_independent e b (entry_objects_reset e he hne) hr s₀ H i
+
+/-- both rows exist in the generated table, and no persistent object keeps a `_VersionConverter`
+(it is built per call inside `convert_version`): the table has no row for it -/
+theorem convert_version_pass_rows :
+    (OV.Gen.C14Globals.entryRows.any (fun e => e.name == "ConvertVersionPass")) = true ∧
+    (OV.Gen.C14Globals.entryRows.any (fun e => e.name == "_ConvertVersionPassRequiresInline")) = true ∧
+    (OV.Gen.C14Globals.entryRows.all (fun e => e.name != "_VersionConverter")) = true := by
+  decide +kernel
+
+/-- non-vacuity: a behaviour that respects the generated `ConvertVersionPass` row — it reads only the
+`__init__`-only field `target_version`, names the adapter-created values with a converter built for this
+call, and leaves scratch state behind -/
+example : ∃ (e : EntryRow) (b : ObjBeh (List String × Nat) (List String × Bool × Option Int)),
+    e ∈ OV.Gen.C14Globals.entryRows ∧ e.name = "ConvertVersionPass" ∧ ObjRespects e b := by
+  have hfind : ∃ e, e ∈ OV.Gen.C14Globals.entryRows ∧ e.name = "ConvertVersionPass" ∧
+      "target_version" ∈ e.consts ∧ "_scratch" ∉ e.consts := by
+    have h : (OV.Gen.C14Globals.entryRows.any (fun e => e.name == "ConvertVersionPass" &&
+        e.consts.contains "target_version" && !e.consts.contains "_scratch")) = true := by decide +kernel
+    rcases List.any_eq_true.1 h with ⟨e, he, hp⟩
+    simp only [Bool.and_eq_true, beq_iff_eq, List.contains_iff_mem, Bool.not_eq_true',
+      ← Bool.not_eq_true] at hp
+    exact ⟨e, he, hp.1.1, hp.1.2, by simpa using hp.2⟩
+  obtain ⟨e, he, hn, htv, hsc⟩ := hfind
+  refine ⟨e, ⟨fun s i =>
+    (((convertPassCall false {} i.1 i.2).1.1, (convertPassCall false {} i.1 i.2).1.2, s "target_version"),
+      [("_scratch", 1)])⟩, he, hn, ?_, ?_⟩
+  · intro s s' i hag
+    have : s "target_version" = s' "target_version" :=
+      hag _ (List.mem_append_right _ htv)
+    simp only [this]
+  · intro s i p hp
+    simp only [List.mem_singleton] at hp
+    subst hp
+    exact hsc
+
+/-- **Names of adapter-created values do not depend on the models converted before** with the same pass
+object: the converter (its `used` names, its counter, its `_modified` flag) is built for the call. -/
+theorem convert_pass_fresh_converter (st st' : VCState) (modelNames : List String) (k : Nat) :
+    (convertPassCall false st modelNames k).1 = (convertPassCall false st' modelNames k).1 := rfl
+
+/-- A pass keeping ONE converter (seeded change C14-8): the second model's new values are `val_1…`
+instead of `val_0…`, and NameFixPass runs on a model that was not modified. -/
+theorem convert_pass_reused_converter_refuted :
+    ¬ ∀ (st st' : VCState) (modelNames : List String) (k : Nat),
+        (convertPassCall true st modelNames k).1 = (convertPassCall true st' modelNames k).1 := by
+  intro h
+  have := h (vcVisit {} ["x"] 1).2 {} ["y"] 1
+  revert this; decide
+
+example : (convertPassCall false {} ["val_0", "x", "val_2"] 3).1 = (["val_1", "val_3", "val_4"], true) := by decide
+
 /-! ## The whole process -/
 
 /-- **History independence, all operation kinds.**  For every set of installed rule objects obeying
